@@ -375,6 +375,21 @@ func init() {
 			g.MaxDepth = 4
 		}
 		c := &C15Case{Script: g.Script(), Seps: gen.RandomLayout(t).Seps}
+		if gen.Chance(t, "long", 2) && len(c.Script.Stmts) > 0 {
+			// long scripts: the same statements (and declarations) over and over, 130-400 of them
+			// - the tree does not depend on how many came before
+			want := 130 + gen.Uniform(t, "long.n", 270)
+			base := c.Script.Clone()
+			for len(c.Script.Stmts) < want {
+				c.Script.Stmts = append(c.Script.Stmts, base.Clone().Stmts...)
+			}
+			if len(base.Vars) > 0 && gen.Chance(t, "long.vars", 50) {
+				for len(c.Script.Vars) < want {
+					c.Script.Vars = append(c.Script.Vars, base.Clone().Vars...)
+				}
+			}
+			return c
+		}
 		if gen.Chance(t, "glue", 6) {
 			c.Glue = true
 			c.Seps = nil
